@@ -72,6 +72,19 @@ class Report:
         self.dup: dict = {}
 
     # -- exploration results ------------------------------------------
+    @staticmethod
+    def _short(x, limit: int = 240):
+        """evidence stays small: long strings (70 kB transcripts ...) are cut, containers walked"""
+        if isinstance(x, str):
+            return x if len(x) <= limit else x[: limit - 40] + f"...(+{len(x) - limit + 40} chars)"
+        if isinstance(x, bytes):
+            return Report._short(repr(x), limit)
+        if isinstance(x, dict):
+            return {Report._short(k if isinstance(k, str) else repr(k), 80): Report._short(v, limit) for k, v in list(x.items())[:40]}
+        if isinstance(x, (list, tuple)):
+            return [Report._short(v, limit) for v in list(x)[:40]]
+        return x
+
     def add_exploration(self, name: str, st, bounds: dict, params_desc=None, min_outcomes: int = 0) -> None:
         c = self.cov
         c["evaluations"] += st.execs
@@ -85,7 +98,7 @@ class Report:
             "transitions": len(st.transitions),
             "bounds": {k: v for k, v in bounds.items()},
             "distinct_outcomes": len(st.outcomes),
-            "outcomes": {str(k): v for k, v in st.outcomes.most_common(12)},
+            "outcomes": {self._short(str(k)): v for k, v in st.outcomes.most_common(12)},
             "max_choice_points": st.max_points,
             "max_steps": st.max_steps,
             "horizon_capped_executions": st.capped,
@@ -93,7 +106,7 @@ class Report:
             "exec_digest": "%016x" % st.exec_digest,
         }
         if params_desc is not None:
-            part["params"] = params_desc
+            part["params"] = self._short(params_desc)
         c["parts"][name] = part
         if st.budget_hit or st.capped:
             c["exhaustive"] = False
@@ -114,7 +127,7 @@ class Report:
 
     def sample(self, s) -> None:
         if len(self.cov["samples"]) < 12:
-            self.cov["samples"].append(s)
+            self.cov["samples"].append(self._short(s))
 
     # -- violations ----------------------------------------------------
     def violation(self, key: str, message: str, payload: dict) -> None:
@@ -157,8 +170,11 @@ class Report:
             "violations": len(self.violations),
         }
         os.makedirs(EVID, exist_ok=True)
+        text = json.dumps(ev, indent=1, default=repr)
+        if len(text) > 1_500_000:
+            print(f"warning: evidence file of {self.pid} is {len(text)} bytes", file=sys.stderr)
         with open(os.path.join(EVID, f"{self.pid}.json"), "w") as f:
-            json.dump(ev, f, indent=1, default=repr)
+            f.write(text)
         for k, n in self.dup.items():
             print(f"  (+{n} more violations with key {k})")
         if self.internal:
